@@ -64,7 +64,7 @@ func Printable(v []byte) bool {
 // literal spellings of v for a column of shadow type oid
 func Literals(oid uint32, v []byte) []string {
 	switch oid {
-	case sess.OIDInt4:
+	case sess.OIDInt4, sess.OIDInt8:
 		return []string{string(v)}
 	case sess.OIDText:
 		return []string{sess.QuoteLit(v)}
